@@ -10,7 +10,7 @@ import (
 type world struct{}
 
 func (world) Name() string    { return "chain" }
-func (world) Props() []string { return []string{"C15", "C16", "C17"} }
+func (world) Props() []string { return []string{"C15", "C16", "C17", "C36"} }
 func (world) Bubble(p string) bool {
 	switch p {
 	case "C15", "C16":
@@ -30,6 +30,8 @@ func (world) Run(k *kernel.K) {
 		runTree(k)
 	case "C17":
 		runFinality(k)
+	case "C36":
+		runCrash(k)
 	}
 }
 func (world) Rule(p string) string {
@@ -38,6 +40,8 @@ func (world) Rule(p string) string {
 		return "one run = 1-3 real blocktree.BlockTree instances fed the same generated blocks (depth<=12, siblings, primary/secondary marks, tied arrival instants) through per-node inboxes whose delivery order, duplication and interleaving with finalisations are tape-chosen; after every event the touched node is compared with a reference tree built from parent links (block set, leaves, best block, pruned set, ancestry/LCA/range/by-number queries on sampled and finally all pairs). A run is non-trivial if it finalised at least once with >=2 blocks in the tree or delivered out of order/duplicated; distinct = distinct event-kind sequence fingerprint."
 	case "C17":
 		return "one run = a real dot/state BlockState+StorageState over simdisk inside a synctest bubble; blocks with real state tries are imported in tape-chosen order, finalisation requests target descendants, the head again, stale ancestors, pruned siblings and unknown hashes; restarts reload from the simulated disk. After every request: accepted => known descendant; rejected => head/tree/unfinalised/tries unchanged; every finalised-chain block resolvable by number from the DB; no abandoned block retrievable as unfinalised, no abandoned state trie cached. Non-trivial = at least one accepted finalisation that abandoned >=1 block or one restart."
+	case "C36":
+		return "fault enumeration: one run = one generated scenario (4-26 operations: block imports with real state tries, forks, scheduled and forced GRANDPA authority changes, finalisations with justification/votes/round bookkeeping in the order lib/grandpa and dot/core issue them) executed once over the simulated disk; then the node is restarted through the real state.Service.Start() reload path from EVERY prefix of the write log (each Put one record, each batch one atomic record). Oracle per restart: start succeeds; finalised head header, body and full state readable and equal to the reference; finalised number and (set id, round) never older than at the previous crash index; current set id has an authority list and an activation block. Crash indexes are enumerated completely per scenario, scenarios are sampled. Non-trivial = at least 10 writes."
 	}
 	return ""
 }
@@ -49,10 +53,19 @@ func (world) Components(p string) ([]string, []string) {
 	case "C17":
 		return []string{"dot/state BlockState (AddBlock, SetFinalisedHash, handleFinalisedBlock, NewBlockState reload)", "dot/state InmemoryStorageState+Tries", "lib/blocktree", "pkg/trie/inmemory", "lib/runtime/storage.TrieState"},
 			[]string{"disk (simdisk)", "clock (synctest bubble)", "telemetry", "runtime (state changes drawn from the tape)", "network"}
+	case "C36":
+		return []string{"dot/state Service.Start reload path (NewBlockState, LoadFromDB, NewEpochState, NewGrandpaState)", "dot/state BlockState.SetFinalisedHash/handleFinalisedBlock, SetJustification", "dot/state GrandpaState (digest handling, ApplyScheduledChanges, ApplyForcedChanges, IncrementSetID, votes/round bookkeeping)", "dot/state InmemoryStorageState.StoreTrie + pkg/trie/inmemory WriteDirty", "internal/database table/batch wrappers"},
+			[]string{"disk (simdisk write log replaces pebble)", "block execution (tape-chosen state changes)", "lib/grandpa and dot/core/dot/digest callers (their call order is replayed by the harness)", "clock (synctest bubble)", "telemetry"}
 	}
 	return nil, nil
 }
 func (world) Budget(p, tier string) (int, time.Duration) {
+	if p == "C36" {
+		if tier == "thorough" {
+			return 200000, 8 * time.Minute
+		}
+		return 20000, 40 * time.Second
+	}
 	if tier == "thorough" {
 		return 600000, 8 * time.Minute
 	}
